@@ -12,8 +12,8 @@ EXTENDS Integers, Sequences, FiniteSets, TLC, Json, IOUtils, JobQueueProps
 Trace == ndJsonDeserialize(IOEnv.VERIF_TRACE)
 N == Len(Trace)
 
-VARIABLES l, pass, seen, jpass, hf, sl, viol
-vars == <<l, pass, seen, jpass, hf, sl, viol>>
+VARIABLES l, pass, seen, jpass, hf, sl, wb, viol
+vars == <<l, pass, seen, jpass, hf, sl, wb, viol>>
 
 NoPass == [t0 |-> -1, view |-> <<>>]
 MaxCOf(s) == [c \in 1..2 |-> IF ToString(c) \in DOMAIN s.maxc THEN s.maxc[ToString(c)] ELSE 1]
@@ -69,7 +69,7 @@ StepFails(p, s, ps) ==
     \cup Fail("C07_RefusedOnlyWhenDue", C07_RefusedOnlyWhenDueStep(p.api, s.api, s.now))
     \cup Fail("C15_Monotone", \A c \in DOMAIN s.jcapi : c \in DOMAIN p.jcapi => C15_MonotoneStep(p.jcapi[c], s.jcapi[c]))
 
-Init == l = 1 /\ pass = NoPass /\ seen = NoSeen /\ jpass = [c |-> "", v |-> [sch |-> 0, exe |-> 0]] /\ hf = FALSE /\ sl = FALSE /\ viol = {}
+Init == l = 1 /\ pass = NoPass /\ seen = NoSeen /\ jpass = [c |-> "", v |-> [sch |-> 0, exe |-> 0]] /\ hf = FALSE /\ sl = FALSE /\ wb = FALSE /\ viol = {}
 
 Next ==
     /\ l <= N
@@ -91,8 +91,11 @@ Next ==
           /\ hf' = IF e.ev = "Reset" THEN FALSE ELSE hf \/ IsFault(e)
           \* witness of the store-listener-lag history: a per-config pass read the active count while the store's listener
           \* still had undelivered Job events (client-go gives no order between the listeners of one informer)
+          \* witness of the watch-break history: the Job watch broke in this run (the store saw a Job jump from not started to finished)
+          /\ wb' = IF e.ev = "Reset" THEN FALSE ELSE wb \/ e.ev = "JobWatchBreak"
           /\ sl' = IF e.ev = "Reset" THEN FALSE ELSE sl \/ (e.ev = "StepCount" /\ l > 1 /\ Trace[l - 1].st.storeq > 0)
           /\ viol' = viol \cup {r \in {[f |-> f, line |-> l, run |-> e.run, ev |-> e.ev, faulted |-> e.faulted, af |-> (hf \/ IsFault(e)),
+                                 wbreak |-> (wb \/ e.ev = "JobWatchBreak"),
                                  slag |-> (sl \/ (e.ev = "StepCount" /\ l > 1 /\ Trace[l - 1].st.storeq > 0))] : f \in fs} : ~\E v \in viol : v.f = r.f /\ v.run = r.run}   \* first failure of a formula in a run only
 Spec == Init /\ [][Next]_vars
 
